@@ -78,7 +78,9 @@ def make_list(rng, pool, with_ew):
     if with_ew:
         for e in P['emails'] + P['sites']:
             pws.append(e)
-            pws.append(rng.choice(words) + e if rng.random() < 0.5 else e + rng.choice(P['digits']))
+            pws.append(e + rng.choice(P['digits'] + P['syms']))      # e-mail / website followed by another segment
+            if rng.random() < 0.5:
+                pws.append(rng.choice(words) + e)
     pws += rng.sample(pws, min(4, len(pws)))          # duplicates
     rng.shuffle(pws)
     return pws
@@ -232,6 +234,7 @@ def main(pid, tier, seed):
         if k == 0 and pid == 'C06':
             # unsupported structures dominate
             pws = ['bob@aol.com'] * 4 + ['www.google.com12', 'x@y.org1', 'pass'] + ['a.b@gmail.com!'] * 2
+            coverage = 0.6
         if enc == 'utf-16':
             raw = '\n'.join(pws).encode('utf-16') + '\n'.encode('utf-16')[2:]
             kw = dict(raw=raw)
